@@ -117,13 +117,13 @@ func ruleLzmaWriterContract(c *Ctx, r *Report, prefix string) {
 		g := o.rel("close-size", soFar, roleFieldLoad(fSize), token.NEQ, "bytes written (Compressed()+Buffered()) != size announced in the header")
 		if g != nil {
 			okDom := false
-			for _, b := range wClose.Blocks {
+			for _, b := range theCtx.GB(wClose) {
 				for _, ins := range b.Instrs {
 					if isCallTo(ins, encClose) {
 						okDom = true
 						// every path to encoder.Close passes the test or the size < 0 edge: the guard's
 						// block is reached only under size >= 0; check domination of the join
-						if !(g.iff.Block().Succs[1].Dominates(b) || blockReachableOnlyVia(wClose, b, g.iff)) {
+						if !(theCtx.Dom(g.iff.Block().Succs[1], b) || blockReachableOnlyVia(wClose, b, g.iff)) {
 							okDom = false
 						}
 					}
@@ -135,7 +135,7 @@ func ruleLzmaWriterContract(c *Ctx, r *Report, prefix string) {
 	// Write: p is cut to size - written (clipped at 0) and ErrNoSpace is reported
 	{
 		okExpr, okTrunc := false, false
-		for _, b := range wWrite.Blocks {
+		for _, b := range theCtx.GB(wWrite) {
 			for _, ins := range b.Instrs {
 				if bo, ok := ins.(*ssa.BinOp); ok && bo.Op == token.SUB && roleFieldLoad(fSize)(bo.X) && soFar(bo.Y) {
 					okExpr = true
@@ -151,7 +151,7 @@ func ruleLzmaWriterContract(c *Ctx, r *Report, prefix string) {
 		// ErrNoSpace on truncation: the truncating edge sets err = ErrNoSpace
 		errNoSpace := c.Global("lzma", "ErrNoSpace")
 		okErr := false
-		for _, b := range wWrite.Blocks {
+		for _, b := range theCtx.GB(wWrite) {
 			hasSlice := false
 			for _, ins := range b.Instrs {
 				if sl, ok := ins.(*ssa.Slice); ok && sl.X == wWrite.Params[1] {
@@ -160,11 +160,11 @@ func ruleLzmaWriterContract(c *Ctx, r *Report, prefix string) {
 			}
 			if hasSlice {
 				// a φ downstream takes ErrNoSpace from this block
-				for _, b2 := range wWrite.Blocks {
+				for _, b2 := range theCtx.GB(wWrite) {
 					for _, ins := range b2.Instrs {
 						if ph, ok := ins.(*ssa.Phi); ok && isErrType(ph.Type()) {
 							for i, e := range ph.Edges {
-								if roleGlobalLoad(errNoSpace)(e) && (b2.Preds[i] == b || b.Dominates(b2.Preds[i])) {
+								if roleGlobalLoad(errNoSpace)(e) && (b2.Preds[i] == b || theCtx.Dom(b, b2.Preds[i])) {
 									okErr = true
 								}
 							}
@@ -226,7 +226,7 @@ func ruleLzmaWriterContract(c *Ctx, r *Report, prefix string) {
 			// newEncoder: marker = flags & eosMarker != 0
 			if ne := c.Func("lzma", "newEncoder"); ne != nil {
 				ok := false
-				for _, b := range ne.Blocks {
+				for _, b := range theCtx.GB(ne) {
 					for _, ins := range b.Instrs {
 						if st, isSt := storeToField(ins, fMarker); isSt {
 							if bo, isB := st.Val.(*ssa.BinOp); isB && bo.Op == token.NEQ && roleConst(0)(bo.Y) {
@@ -282,7 +282,7 @@ func ruleLzmaWriterContract(c *Ctx, r *Report, prefix string) {
 func blockReachableOnlyVia(fn *ssa.Function, b *ssa.BasicBlock, iff *ssa.If) bool {
 	// simple form: the If's block and b share the dominator that tests `size >= 0`
 	d := iff.Block().Idom()
-	return d != nil && d.Dominates(b)
+	return d != nil && theCtx.Dom(d, b)
 }
 
 // ruleSizeBeforeOp (SEQ-D1): on every path of decoder.decompress the declared size is
@@ -406,7 +406,7 @@ func ruleXZWriterFormat(c *Ctx, r *Report, prefix string) {
 			want, sumName = putLE64, "Sum64"
 		}
 		ok := false
-		for _, b := range fn.Blocks {
+		for _, b := range theCtx.GB(fn) {
 			for _, ins := range b.Instrs {
 				if call, isC := callTo(ins, want); isC {
 					if sc, isS := call.Call.Args[1].(*ssa.Call); isS && sc.Call.IsInvoke() && sc.Call.Method.Name() == sumName {
@@ -449,7 +449,7 @@ func ruleXZWriterFormat(c *Ctx, r *Report, prefix string) {
 	}
 	// header / footer / block header CRC coverage on the marshal side
 	crcPut := func(fn *ssa.Function, fed role, dst role) bool {
-		for _, b := range fn.Blocks {
+		for _, b := range theCtx.GB(fn) {
 			for _, ins := range b.Instrs {
 				if call, ok := callTo(ins, putLE32); ok {
 					if dst(call.Call.Args[0]) && roleSum32Fed(fed)(call.Call.Args[1]) {
@@ -475,7 +475,7 @@ func ruleXZWriterFormat(c *Ctx, r *Report, prefix string) {
 			"stream header: CRC32 of data[6:8] stored at data[8:12]", "header.MarshalBinary does not store the CRC32 of the stream flags data[6:8] at data[8:12]")
 		// flags at data[7], data[6] stays zero
 		ok := false
-		for _, b := range fn.Blocks {
+		for _, b := range theCtx.GB(fn) {
 			for _, ins := range b.Instrs {
 				if st, isSt := ins.(*ssa.Store); isSt {
 					if ia, isIA := st.Addr.(*ssa.IndexAddr); isIA {
@@ -494,7 +494,7 @@ func ruleXZWriterFormat(c *Ctx, r *Report, prefix string) {
 		// backward size = indexSize/4 - 1 at data[4:8]
 		fIS := c.Field("", "footer.indexSize")
 		ok := false
-		for _, b := range fn.Blocks {
+		for _, b := range theCtx.GB(fn) {
 			for _, ins := range b.Instrs {
 				if call, isC := callTo(ins, putLE32); isC && roleSlice(isMade(12), 4, -1)(call.Call.Args[0]) {
 					if roleBinOp(token.SUB, roleBinOp(token.QUO, roleFieldLoad(fIS), roleConst(4)), roleConst(1))(call.Call.Args[1]) {
@@ -508,7 +508,7 @@ func ruleXZWriterFormat(c *Ctx, r *Report, prefix string) {
 	if fn := c.Func("", "blockHeader.MarshalBinary"); fn != nil {
 		// CRC over data[:len-4] stored at data[len-4:]
 		ok := false
-		for _, b := range fn.Blocks {
+		for _, b := range theCtx.GB(fn) {
 			for _, ins := range b.Instrs {
 				call, isC := callTo(ins, putLE32)
 				if !isC {
@@ -535,7 +535,7 @@ func ruleXZWriterFormat(c *Ctx, r *Report, prefix string) {
 		r.Check(ok, rule, "blockheader-crc:"+FnName(fn), c.Pos(fn.Pos()), "block header: CRC32 of data[:len-4] stored at data[len-4:]", "blockHeader.MarshalBinary does not store the CRC32 of data[:len-4] at data[len-4:]")
 		// size byte = len/4 - 1
 		okSize := false
-		for _, b := range fn.Blocks {
+		for _, b := range theCtx.GB(fn) {
 			for _, ins := range b.Instrs {
 				if st, isSt := ins.(*ssa.Store); isSt {
 					if ia, isIA := st.Addr.(*ssa.IndexAddr); isIA {
@@ -553,7 +553,7 @@ func ruleXZWriterFormat(c *Ctx, r *Report, prefix string) {
 		fC, fU := c.Field("", "blockHeader.compressedSize"), c.Field("", "blockHeader.uncompressedSize")
 		var order []string
 		flagOK := map[string]bool{}
-		for _, b := range fn.Blocks {
+		for _, b := range theCtx.GB(fn) {
 			for _, ins := range b.Instrs {
 				if call, isC := callTo(ins, putUvarint); isC {
 					switch {
@@ -591,7 +591,7 @@ func ruleXZWriterFormat(c *Ctx, r *Report, prefix string) {
 		var mwWrites, wWrites int
 		var sum *ssa.Call
 		okOrder := true
-		for _, b := range fn.Blocks {
+		for _, b := range theCtx.GB(fn) {
 			for _, ins := range b.Instrs {
 				call, isC := ins.(*ssa.Call)
 				if !isC {
@@ -621,7 +621,7 @@ func ruleXZWriterFormat(c *Ctx, r *Report, prefix string) {
 		// padding = padLen(n)
 		padLen := c.Func("", "padLen")
 		okPad := false
-		for _, b := range fn.Blocks {
+		for _, b := range theCtx.GB(fn) {
 			for _, ins := range b.Instrs {
 				if ms, isM := ins.(*ssa.MakeSlice); isM {
 					if pc, isP := stripConv(ms.Len).(*ssa.Call); isP && pc.Call.StaticCallee() == padLen {
@@ -635,7 +635,7 @@ func ruleXZWriterFormat(c *Ctx, r *Report, prefix string) {
 	if fn := c.Func("", "record.MarshalBinary"); fn != nil {
 		fUp, fUn := c.Field("", "record.unpaddedSize"), c.Field("", "record.uncompressedSize")
 		var seq []string
-		for _, b := range fn.Blocks {
+		for _, b := range theCtx.GB(fn) {
 			for _, ins := range b.Instrs {
 				if call, isC := callTo(ins, putUvarint); isC {
 					switch {
@@ -652,7 +652,7 @@ func ruleXZWriterFormat(c *Ctx, r *Report, prefix string) {
 		okR := false
 		if rr := c.Func("", "readRecord"); rr != nil {
 			var st []string
-			for _, b := range rr.Blocks {
+			for _, b := range theCtx.GB(rr) {
 				for _, ins := range b.Instrs {
 					if s, isSt := ins.(*ssa.Store); isSt {
 						if fa, isFA := s.Addr.(*ssa.FieldAddr); isFA {
@@ -674,7 +674,7 @@ func ruleXZWriterFormat(c *Ctx, r *Report, prefix string) {
 		fCWn := c.Field("", "countingWriter.n")
 		okBuf, okSum := false, false
 		var buf ssa.Value
-		for _, b := range fn.Blocks {
+		for _, b := range theCtx.GB(fn) {
 			for _, ins := range b.Instrs {
 				if ms, isM := ins.(*ssa.MakeSlice); isM {
 					// make([]byte, k+s) with k = padLen(cxz.n), s = hash.Size()
